@@ -1,20 +1,28 @@
 // Package c10 drives the real notation.Verify with an instrumented repository and
-// verifier over listings x pagings x limits x reference shapes x skip.
+// verifier over listings x pagings x limits x reference shapes x skip x the way the repository
+// answers the callback's request to stop (verbatim / with context added / swallowed / replaced) x
+// the Verifier implementation (stubs without / with SkipVerify, and the library's real verifier
+// over a trust policy document and genuine envelopes).
 package c10
 
 import (
 	"context"
+	"crypto/x509"
 	"encoding/json"
 	"errors"
 	"fmt"
 	"reflect"
 	"strconv"
+	"strings"
+	"sync"
 	"time"
 
 	"github.com/notaryproject/notation-core-go/signature"
 
 	"github.com/notaryproject/notation-go"
+	realverifier "github.com/notaryproject/notation-go/verifier"
 	"github.com/notaryproject/notation-go/verifier/trustpolicy"
+	"github.com/notaryproject/notation-go/verifier/truststore"
 	"github.com/notaryproject/notation-go/xverif/common"
 	"github.com/opencontainers/go-digest"
 	ocispec "github.com/opencontainers/image-spec/specs-go/v1"
@@ -25,12 +33,21 @@ type Input struct {
 	Pages [][]string `json:"pages"`
 	Ref   string     `json:"ref"`
 	Skip  bool       `json:"skip"`
+	// what the repository's ListSignatures does when the callback returns an error (its only way to stop the
+	// listing): "forward" it (verbatim or with context, see Wrap), "swallow" it (return nil), or "replace" it by
+	// an unrelated error of its own (the listing is reported as failed)
+	ListErr string `json:"listErr"`
 	// concretisation only (ignored by the model, theorem concretisation_irrelevant):
 	RefVariant string `json:"refVariant"` // "", "sha512", "sha384", "tag@digest"
 	Flavors    []int  `json:"flavors"`    // per listed signature: error value of a failing fetch / verification,
 	// media type of the fetched envelope and age of the signature manifest (see flavored, mediaTypeOf, createdOf)
 	SameAs []int `json:"sameAs"` // per listed signature: -1, or the EARLIER listing position whose manifest digest this
 	// entry repeats (a listing may name one manifest twice; both entries count as attempts)
+	Wrap int `json:"wrap"` // forward: which context the repository adds to the callback's error (wrapErr; 0 = none);
+	// replace: which unrelated error it returns (replacement)
+	Verifier string `json:"verifier"` // "stub" (Verify only), "skipper" (stub with SkipVerify), or the library's verifier built
+	// by "realNew" / "realNewWithOptions" / "realNewVerifierWithOptions" and handed to notation.Verify AS IS
+	Policy int `json:"policy"` // real verifier: shape of the trust policy document (policyDoc)
 }
 
 type Obs struct {
@@ -80,11 +97,13 @@ type repo struct {
 	resolved bool
 	listed   bool
 	fetched  []int
-	index    map[digest.Digest]int
-	kind     map[digest.Digest]string
 	flavors  []int
 	sameAs   []int
 	kinds    []string // by listing position
+	listErr  string
+	wrap     int
+	real     *realWorld // non-nil: the blobs are genuine envelopes for the library's verifier
+	last     int        // listing position of the latest fetch
 }
 
 func (r *repo) Resolve(ctx context.Context, reference string) (ocispec.Descriptor, error) {
@@ -112,10 +131,81 @@ func (r *repo) ListSignatures(ctx context.Context, desc ocispec.Descriptor, fn f
 			i++
 		}
 		if err := fn(ds); err != nil {
-			return err
+			// the callback asked to stop: no further page is requested; what the caller gets back is up to
+			// the repository implementation
+			switch r.listErr {
+			case "swallow":
+				return nil
+			case "replace":
+				return replacement(r.wrap, err)
+			}
+			return wrapErr(r.wrap, desc, err)
 		}
 	}
 	return nil
+}
+
+// ---- what a repository may make of the callback's error ------------------------------------------------
+
+// annotated adds context the Go 1.13 way: its own message, the cause behind Unwrap
+type annotated struct {
+	op    string
+	cause error
+}
+
+func (e *annotated) Error() string { return "registry: " + e.op + " interrupted" }
+func (e *annotated) Unwrap() error { return e.cause }
+
+// multi is a clean-up error list the Go 1.20 way: Unwrap() []error
+type multi struct{ errs []error }
+
+func (e *multi) Error() string   { return fmt.Sprintf("%d errors while listing referrers", len(e.errs)) }
+func (e *multi) Unwrap() []error { return e.errs }
+
+// opaque has no Unwrap at all and answers errors.Is through an Is method
+type opaque struct{ cause error }
+
+func (e opaque) Error() string        { return "listing stopped by the caller" }
+func (e opaque) Is(target error) bool { return errors.Is(e.cause, target) }
+
+const wrapKinds = 8
+
+// wrapErr: context a forwarding repository (a tracing / retrying decorator, a client that closes a response
+// body) adds to the callback's error; errors.Is finds the callback's error in every one of them
+func wrapErr(k int, desc ocispec.Descriptor, err error) error {
+	cleanup := errors.New("closing the referrers response: connection reset by peer")
+	switch k % wrapKinds {
+	case 1:
+		return fmt.Errorf("list signatures of %s: %w", desc.Digest, err)
+	case 2:
+		return errors.Join(err, cleanup)
+	case 3:
+		return errors.Join(cleanup, err)
+	case 4:
+		return &annotated{op: "ListSignatures", cause: err}
+	case 5:
+		return &multi{errs: []error{cleanup, err}}
+	case 6:
+		return fmt.Errorf("attempt 1 of 3: %w", &annotated{op: "Referrers", cause: fmt.Errorf("page callback: %w", err)})
+	case 7:
+		return opaque{cause: err}
+	}
+	return err
+}
+
+const replaceKinds = 4
+
+// replacement: an error of the repository's own, returned INSTEAD of the callback's (does not wrap it)
+func replacement(k int, err error) error {
+	switch k % replaceKinds {
+	case 1:
+		return errors.New("done verification") // the text of notation's private sentinel, another value
+	case 2:
+		return notation.ErrorVerificationFailed{Msg: "listing aborted"} // the type of the limit error, another value
+	case 3:
+		return fmt.Errorf("listing stopped: %v", err) // mentions the callback's error by text only (%v, not %w)
+	}
+	return errors.New("registry: connection reset while closing the referrers listing")
 }
 
 func (r *repo) kindAt(i int) string {
@@ -147,8 +237,13 @@ func createdOf(k, i int) string {
 func (r *repo) FetchSignatureBlob(ctx context.Context, desc ocispec.Descriptor) ([]byte, ocispec.Descriptor, error) {
 	i := int(desc.Size)
 	r.fetched = append(r.fetched, i)
+	r.last = i
 	if r.kindAt(i) == "unfetchable" {
 		return nil, ocispec.Descriptor{}, flavored(r.flavor(i), "unfetchable")
+	}
+	if r.real != nil {
+		blob, mt := r.real.envelope(r.kindAt(i), r.flavor(i), i)
+		return blob, ocispec.Descriptor{MediaType: mt, Digest: digest.FromBytes(blob), Size: int64(len(blob))}, nil
 	}
 	return []byte(fmt.Sprint(i)), ocispec.Descriptor{MediaType: mediaTypeOf(r.flavor(i))}, nil
 }
@@ -191,6 +286,141 @@ func (v *skipVerifier) SkipVerify(ctx context.Context, opts notation.VerifierVer
 	return false, trustpolicy.LevelStrict, nil
 }
 
+// ---- the library's own verifier ------------------------------------------------------------------------
+
+const realPositions = 8
+
+// realWorld: two signing chains (one trusted, one not) and, per listing position, genuine envelopes:
+// "good" = signed by the trusted chain over the resolved artifact; "bad" = signed by the untrusted chain, or by
+// the trusted chain over ANOTHER artifact (both pass the integrity check and reach the trust store, so that the
+// instrumented trust store sees every evaluation). JWS and COSE.
+type realWorld struct {
+	trusted, untrusted *common.Chain
+	blobs              map[string][]byte // "kind/format/position"
+	index              map[string]int    // envelope bytes -> listing position
+}
+
+var (
+	worldOnce sync.Once
+	world     *realWorld
+)
+
+func getWorld() *realWorld {
+	worldOnce.Do(func() {
+		w := &realWorld{trusted: common.MakeChain(common.ChainOpts{Tag: "c10 trusted"}), untrusted: common.MakeChain(common.ChainOpts{Tag: "c10 untrusted"}),
+			blobs: map[string][]byte{}, index: map[string]int{}}
+		elsewhere := ocispec.Descriptor{MediaType: artifact.MediaType, Digest: other, Size: artifact.Size}
+		for pos := 0; pos < realPositions; pos++ {
+			for _, format := range []string{common.MediaJWS, common.MediaCOSE} {
+				for kind, o := range map[string]common.EnvOpts{
+					"good":      {Chain: w.trusted, Target: &artifact},
+					"untrusted": {Chain: w.untrusted, Target: &artifact},
+					"elsewhere": {Chain: w.trusted, Target: &elsewhere},
+				} {
+					o.Format = format
+					o.SigningTime = time.Now().Add(-time.Duration(pos+1) * time.Minute).Truncate(time.Second)
+					b := common.MustSign(o)
+					if _, dup := w.index[string(b)]; dup {
+						panic("c10: two identical envelopes")
+					}
+					w.blobs[fmt.Sprint(kind, "/", format, "/", pos)] = b
+					w.index[string(b)] = pos
+				}
+			}
+		}
+		world = w
+	})
+	return world
+}
+
+func (w *realWorld) envelope(kind string, flavor, pos int) ([]byte, string) {
+	format := common.MediaJWS
+	if flavor%2 == 1 {
+		format = common.MediaCOSE
+	}
+	k := "good"
+	if kind != "good" {
+		k = "untrusted"
+		if (flavor/2)%2 == 1 {
+			k = "elsewhere"
+		}
+	}
+	return w.blobs[fmt.Sprint(k, "/", format, "/", pos%realPositions)], format
+}
+
+// logStore is the trust store of the real verifier: every verification that gets past the integrity check
+// loads it exactly once, which is how the harness sees WHICH fetched envelope the real verifier evaluated
+type logStore struct {
+	roots     []*x509.Certificate
+	r         *repo
+	evaluated []int
+}
+
+func (s *logStore) GetCertificates(ctx context.Context, storeType truststore.Type, namedStore string) ([]*x509.Certificate, error) {
+	if storeType != truststore.TypeCA || namedStore != "c10" {
+		return nil, truststore.TrustStoreError{Msg: "no such store"}
+	}
+	s.evaluated = append(s.evaluated, s.r.last)
+	return s.roots, nil
+}
+
+const policyShapes = 6
+
+// policyDoc: a trust policy document in which the statement applicable to reg.example/repo has level skip
+// (skip = true) or strict; the other statement, where there is one, has the opposite level, so that picking the
+// wrong statement shows
+func policyDoc(shape int, skip bool) *trustpolicy.OCIDocument {
+	stmt := func(name string, skipLevel bool, scopes ...string) trustpolicy.OCITrustPolicy {
+		if skipLevel {
+			return trustpolicy.OCITrustPolicy{Name: name, RegistryScopes: scopes,
+				SignatureVerification: trustpolicy.SignatureVerification{VerificationLevel: "skip"}}
+		}
+		return trustpolicy.OCITrustPolicy{Name: name, RegistryScopes: scopes,
+			SignatureVerification: trustpolicy.SignatureVerification{VerificationLevel: "strict",
+				Override: map[trustpolicy.ValidationType]trustpolicy.ValidationAction{trustpolicy.TypeRevocation: trustpolicy.ActionSkip}},
+			TrustStores: []string{"ca:c10"}, TrustedIdentities: []string{"*"}}
+	}
+	var ps []trustpolicy.OCITrustPolicy
+	switch shape % policyShapes {
+	case 0:
+		ps = []trustpolicy.OCITrustPolicy{stmt("applicable", skip, "*")}
+	case 1:
+		ps = []trustpolicy.OCITrustPolicy{stmt("applicable", skip, "reg.example/repo"), stmt("everything-else", !skip, "*")}
+	case 2:
+		ps = []trustpolicy.OCITrustPolicy{stmt("everything-else", !skip, "*"), stmt("applicable", skip, "reg.example/repo")}
+	case 3:
+		ps = []trustpolicy.OCITrustPolicy{stmt("another-repository", !skip, "reg.example/other"), stmt("applicable", skip, "*")}
+	case 4:
+		ps = []trustpolicy.OCITrustPolicy{stmt("other-repositories", !skip, "reg.example/other", "reg.example/more"),
+			stmt("applicable", skip, "reg.example/aaa", "reg.example/repo", "reg.example/zzz")}
+	case 5:
+		ps = []trustpolicy.OCITrustPolicy{stmt("applicable", skip, "*"), stmt("another-repository", !skip, "reg.example/other")}
+	}
+	return &trustpolicy.OCIDocument{Version: "1.0", TrustPolicies: ps}
+}
+
+// newReal builds the library's verifier through one of its public constructors. The value is handed to
+// notation.Verify exactly as the constructor returned it: no wrapper, no adapter - whether it offers the
+// optional skip interface is for notation.Verify to find out.
+func newReal(ctor string, store truststore.X509TrustStore, doc *trustpolicy.OCIDocument) notation.Verifier {
+	var v notation.Verifier
+	var err error
+	switch ctor {
+	case "realNew":
+		v, err = realverifier.New(doc, store, nil)
+	case "realNewWithOptions":
+		v, err = realverifier.NewWithOptions(doc, store, nil, realverifier.VerifierOptions{})
+	case "realNewVerifierWithOptions":
+		v, err = realverifier.NewVerifierWithOptions(store, realverifier.VerifierOptions{OCITrustPolicy: doc})
+	default:
+		panic("c10: unknown verifier " + ctor)
+	}
+	if err != nil {
+		panic(fmt.Sprintf("c10: %s: %v", ctor, err))
+	}
+	return v
+}
+
 func refString(kind, variant string) string {
 	switch kind {
 	case "tag":
@@ -217,20 +447,30 @@ func refString(kind, variant string) string {
 	}
 }
 
-func runCase(in Input, withSkipper bool) Obs {
-	r := &repo{pages: in.Pages, index: map[digest.Digest]int{}, kind: map[digest.Digest]string{}, flavors: in.Flavors, sameAs: in.SameAs}
+func runCase(in Input) Obs {
+	r := &repo{pages: in.Pages, flavors: in.Flavors, sameAs: in.SameAs, listErr: in.ListErr, wrap: in.Wrap, last: -1}
 	var v notation.Verifier
-	var base *verifier
-	if withSkipper {
+	verifiedLog := func() []int { return nil }
+	switch {
+	case in.Verifier == "skipper":
 		sv := &skipVerifier{verifier: verifier{r: r}, skip: in.Skip}
-		v, base = sv, &sv.verifier
-	} else {
-		base = &verifier{r: r}
-		v = base
+		v, verifiedLog = sv, func() []int { return sv.verified }
+	case in.Verifier == "stub":
+		if in.Skip {
+			panic("c10: a verifier without SkipVerify cannot express a skip level")
+		}
+		base := &verifier{r: r}
+		v, verifiedLog = base, func() []int { return base.verified }
+	case strings.HasPrefix(in.Verifier, "real"):
+		r.real = getWorld()
+		store := &logStore{roots: []*x509.Certificate{r.real.trusted.Root().Cert}, r: r}
+		v, verifiedLog = newReal(in.Verifier, store, policyDoc(in.Policy, in.Skip)), func() []int { return store.evaluated }
+	default:
+		panic("c10: unknown verifier " + in.Verifier)
 	}
 	desc, outcomes, err := notation.Verify(context.Background(), v, r, notation.VerifyOptions{
 		ArtifactReference: refString(in.Ref, in.RefVariant), MaxSignatureAttempts: in.Max})
-	o := Obs{Resolved: r.resolved, Listed: r.listed, Fetched: r.fetched, Verified: base.verified}
+	o := Obs{Resolved: r.resolved, Listed: r.listed, Fetched: r.fetched, Verified: verifiedLog()}
 	if o.Fetched == nil {
 		o.Fetched = []int{}
 	}
@@ -238,12 +478,20 @@ func runCase(in Input, withSkipper bool) Obs {
 		o.Verified = []int{}
 	}
 	if err == nil {
-		if len(outcomes) == 1 && outcomes[0].RawSignature == nil && outcomes[0].VerificationLevel == trustpolicy.LevelSkip {
+		if len(outcomes) == 1 && outcomes[0] != nil && outcomes[0].RawSignature == nil && outcomes[0].VerificationLevel != nil &&
+			outcomes[0].VerificationLevel.Name == trustpolicy.LevelSkip.Name {
 			o.Skipped = true
-		} else if len(outcomes) >= 1 && outcomes[0].RawSignature != nil {
+		} else if len(outcomes) >= 1 && outcomes[0] != nil && outcomes[0].RawSignature != nil {
 			// a success: report which signature's outcome came back
-			idx, aerr := strconv.Atoi(string(outcomes[0].RawSignature))
-			if aerr != nil || idx < 0 || idx >= len(r.kinds) {
+			idx := -1
+			if r.real != nil {
+				if k, ok := r.real.index[string(outcomes[0].RawSignature)]; ok {
+					idx = k
+				}
+			} else if k, aerr := strconv.Atoi(string(outcomes[0].RawSignature)); aerr == nil {
+				idx = k
+			}
+			if idx < 0 || idx >= len(r.kinds) {
 				idx = -1
 			}
 			o.Success = &idx
@@ -285,17 +533,56 @@ func pagings(l []string) [][][]string {
 	return out
 }
 
+// how the repository answers a stop request: the four behaviours (verbatim, with context, swallowed, replaced)
+type stopMode struct {
+	listErr string
+	wrap    int
+}
+
+func stopModes(counter int, all bool) []stopMode {
+	ms := []stopMode{{"forward", 0}, {"forward", 1 + counter%(wrapKinds-1)}, {"swallow", 0}, {"replace", counter % replaceKinds}}
+	if all {
+		return ms
+	}
+	return ms[counter%4 : counter%4+1]
+}
+
+var realCtors = []string{"realNew", "realNewWithOptions", "realNewVerifierWithOptions"}
+
 // Run enumerates the property's quantifier. Quick: listings up to 5 with all pagings;
 // thorough: up to 6 (the quantifier's bound) - both exhaustive over their space.
 func Run(c *common.Ctx) error {
-	maxLen := 5
+	maxLen, shortLen := 5, 3
 	if c.Thorough() {
-		maxLen = 6
+		maxLen, shortLen = 6, 4
 	}
 	refs := []string{"tag", "digestMatch", "digestMismatch", "noRef"}
 	variantsOf := map[string][]string{"tag": {""}, "noRef": {""}, "digestMatch": {"", "tag@digest"},
 		"digestMismatch": {"", "sha512", "sha384", "tag@digest"}}
-	counter := 0
+	emit := func(in Input) {
+		if in.Pages == nil {
+			in.Pages = [][]string{}
+		}
+		o := runCase(in)
+		c.Emit(in, o)
+		c.Count("verifier=" + in.Verifier)
+		c.Count("listErr=" + in.ListErr)
+		if in.ListErr == "forward" {
+			c.Count(fmt.Sprintf("forward/wrap=%d", in.Wrap%wrapKinds))
+		}
+		if strings.HasPrefix(in.Verifier, "real") {
+			c.Count(fmt.Sprintf("real/skip=%v/policy=%d", in.Skip, in.Policy%policyShapes))
+		}
+		if o.Success != nil {
+			c.Count("outcome=success")
+		} else if o.Skipped {
+			c.Count("outcome=skipped")
+		} else {
+			c.Count("outcome=error")
+		}
+	}
+	// the seed shifts every rotation below (error flavours, repeated manifests, added context, constructor, policy shape)
+	counter := c.Rand.Intn(5040)
 	for n := 0; n <= maxLen; n++ {
 		for _, l := range listings(n) {
 			for _, pg := range pagings(l) {
@@ -309,7 +596,7 @@ func Run(c *common.Ctx) error {
 					for max := -1; max <= n+2 && max <= 7; max++ {
 						for _, ref := range refs {
 							// the full cross with references only on short listings; tag otherwise
-							if ref != "tag" && n > 3 {
+							if ref != "tag" && n > shortLen {
 								continue
 							}
 							for _, skip := range []bool{false, true} {
@@ -341,27 +628,32 @@ func Run(c *common.Ctx) error {
 											}
 										}
 									}
-									in := Input{Max: max, Pages: pages, Ref: ref, Skip: skip, RefVariant: variant, Flavors: flavors, SameAs: sameAs}
-									if in.Pages == nil {
-										in.Pages = [][]string{}
+									// the repository's answer to a stop request: all four behaviours on short listings, a
+									// rotation on long ones
+									for _, m := range stopModes(counter, n <= shortLen) {
+										in := Input{Max: max, Pages: pages, Ref: ref, Skip: skip, RefVariant: variant, Flavors: flavors, SameAs: sameAs,
+											ListErr: m.listErr, Wrap: m.wrap, Verifier: "skipper"}
+										emit(in)
+										c.Count("refVariant=" + ref + "/" + variant)
+										c.Count("ref=" + ref)
+										c.Count(fmt.Sprintf("len=%d", n))
+										if !skip && n <= shortLen {
+											// the same case through a verifier without SkipVerify
+											in.Verifier = "stub"
+											emit(in)
+										}
 									}
-									o := runCase(in, true)
-									c.Count("refVariant=" + ref + "/" + variant)
-									c.Emit(in, o)
-									c.Count("ref=" + ref)
-									c.Count(fmt.Sprintf("len=%d", n))
-									if o.Success != nil {
-										c.Count("outcome=success")
-									} else if o.Skipped {
-										c.Count("outcome=skipped")
-									} else {
-										c.Count("outcome=error")
-									}
-									if !skip && n <= 3 {
-										// the same case through a verifier without SkipVerify
-										o2 := runCase(in, false)
-										c.Emit(in, o2)
-										c.Count("verifier=no-skipper")
+									// the library's own verifier: it selects the applicable statement from the reference, which
+									// it only accepts in the form repository@digest
+									if n <= shortLen && (ref == "digestMatch" || ref == "digestMismatch") && variant != "tag@digest" {
+										for k, m := range stopModes(counter, true) {
+											if skip && k != counter%4 {
+												continue // under skip nothing is listed: one stop behaviour per case is enough
+											}
+											in := Input{Max: max, Pages: pages, Ref: ref, Skip: skip, RefVariant: variant, Flavors: flavors, SameAs: sameAs,
+												ListErr: m.listErr, Wrap: m.wrap, Verifier: realCtors[(counter+k)%len(realCtors)], Policy: (counter/3 + k) % policyShapes}
+											emit(in)
+										}
 									}
 								}
 							}
@@ -372,6 +664,9 @@ func Run(c *common.Ctx) error {
 		}
 	}
 	c.SetExhaustive(true)
-	c.Note("listings of length 0..%d over {good,bad,unfetchable} x all pagings x limits -1..min(len+2,7); reference shapes crossed for len<=3, skip for len<=2", maxLen)
+	c.Note("listings of length 0..%[1]d over {good,bad,unfetchable} x all pagings x limits -1..min(len+2,7); reference shapes crossed for len<=%[2]d, skip for len<=2; "+
+		"repository's answer to the callback's stop request: verbatim / with context added (%[3]d kinds: fmt %%w, errors.Join either side, Unwrap() error, Unwrap() []error, two layers, Is method) / swallowed / replaced by an unrelated error (%[4]d kinds) - all four for len<=%[2]d, rotating for longer listings; "+
+		"verifiers: stub with SkipVerify, stub without (non-skip, len<=%[2]d), and for repository@digest references with len<=%[2]d the library's verifier (New / NewWithOptions / NewVerifierWithOptions, handed over unwrapped) over %[5]d policy document shapes (level skip or strict on the applicable statement, the opposite level on the other) and genuine JWS / COSE envelopes (good = trusted chain over the artifact; bad = untrusted chain, or trusted chain over another artifact), evaluations observed through an instrumented trust store",
+		maxLen, shortLen, wrapKinds-1, replaceKinds, policyShapes)
 	return nil
 }
